@@ -10,7 +10,7 @@ UNIT = dict(
         dict(file=C, impl='Document', name='new_object_id', rules=dict(no_sink=True)),
         dict(file=C, impl='Document', name='add_object', rules=dict(no_sink=True, pre_subst=[INTO], subst=[INTO2])),
         dict(file=C, impl='Document', name='set_object', rules=dict(no_sink=True, pre_subst=[INTO], subst=[
-            INTO2, dict(rule='R5', lit='self.max_id.max(id.0)', to='max_u32(self.max_id, id.0)', count=1, note='u32::max shim'),
+            INTO2, dict(rule='R5', lit='self.max_id.max(id.0)', to='max_u32(self.max_id, id.0)', optional=True, note='u32::max shim'),
         ])),
     ],
 )
